@@ -261,6 +261,32 @@ def hist_st(cases, outs):
     return h
 
 
+T60 = 1 << 60
+
+
+def gen_fv(rng):
+    kind = rng.randrange(5)
+    if kind < 4:
+        a = rng.choice([0, 1, T60 - 1, T60, T60 + 1, T60 + 2, VMAX, VMAX - 1, 1 << 32, rng.randrange(1 << 62), rng.randrange(T60 - 5, T60 + 5)])
+        return [kind, a, 0, 0]
+    a = rng.choice([0, 1, 2, 63, 64, 16383, 16384, VMAX, VMAX - 1, rng.randrange(1 << 62), rng.randrange(0, 10)])
+    b = rng.choice([0, a, max(0, a - 1), min(VMAX, a + 1), min(VMAX, a + 2), VMAX, rng.randrange(1 << 62), rng.randrange(0, 10)])
+    ln = rng.choice([0, 1, 2, 8, 19, 20, 21, 22, 255, rng.randrange(0, 256)])
+    return [kind, a, b, ln]
+
+
+def fixed_fv(tier):
+    out = []
+    for kind in range(4):
+        for a in (0, 1, T60 - 1, T60, T60 + 1, VMAX):
+            out.append([kind, a, 0, 0])
+    for a in (0, 1, 5, VMAX):
+        for b in (0, max(0, a - 1), a, min(VMAX, a + 1), VMAX):
+            for ln in (0, 1, 20, 21, 255):
+                out.append([4, a, b, ln])
+    return out
+
+
 def _tolerant_ok(comp, p):
     import os, subprocess
     from run_check import hexline, BUILD
@@ -323,16 +349,22 @@ registry.register("C04", {
          "valid": valid_st,
          "nontrivial": lambda case, out: len(out) >= 2 and any(v not in (0, 1) for v in out),
          "histogram": hist_st},
+        {"name": "fv", "gen": gen_fv, "fixed": fixed_fv, "quick": 5000, "thorough": 200000,
+         "valid": lambda c: len(c) == 4 and all(0 <= v <= VMAX for v in c),
+         "nontrivial": lambda case, out: out != [0],
+         "histogram": lambda cases, outs: {"accepted": sum(1 for o in outs if o.strip() == "0"), "rejected": sum(1 for o in outs if o.strip() != "0")}},
     ],
     "classify": classify,
-    "rule": "rx: corpus + boundary families (for stream windows 0,1,2,10,100 and connection windows 0,1,w,w+1,2w: frames ending at window-1, window, window+1 with lengths 0/1/all, with and without FIN, followed by read + transmit; two streams sharing the connection window; final-size games: FIN then more data / other FIN / smaller FIN, RESET_STREAM with equal, other, smaller and limit-edge sizes, empty stream, offsets at 2^62-1, u32 window edge, window sliding after read + MAX_* transmission + ack/loss, stop_sending then RESET_STREAM) + seeded random sequences of 1..30 operations over 1..4 streams (STREAM frames in order / ending at the stream limit +-2 / ending at the connection limit +-2 / overlapping / around the final size / huge offsets; RESET_STREAM at received size, final size +-2, limit +-2, random; reads of 0..2^20; stop_sending; transmit; ack; loss; STREAM_DATA_BLOCKED), windows incl. 0, 1 and 2^32-1; a case is non-trivial when something other than plain acceptance happens (bytes delivered, an error, a MAX_* frame)",
+    "rule": "rx: corpus + boundary families (for stream windows 0,1,2,10,100 and connection windows 0,1,w,w+1,2w: frames ending at window-1, window, window+1 with lengths 0/1/all, with and without FIN, followed by read + transmit; two streams sharing the connection window; final-size games: FIN then more data / other FIN / smaller FIN, RESET_STREAM with equal, other, smaller and limit-edge sizes, empty stream, offsets at 2^62-1, u32 window edge, window sliding after read + MAX_* transmission + ack/loss, stop_sending then RESET_STREAM) + seeded random sequences of 1..30 operations over 1..4 streams (STREAM frames in order / ending at the stream limit +-2 / ending at the connection limit +-2 / overlapping / around the final size / huge offsets; RESET_STREAM at received size, final size +-2, limit +-2, random; reads of 0..2^20; stop_sending; transmit; ack; loss; STREAM_DATA_BLOCKED), windows incl. 0, 1 and 2^32-1; a case is non-trivial when something other than plain acceptance happens (bytes delivered, an error, a MAX_* frame); header = window of peer-initiated streams, window of locally opened streams (different values included), connection window. st: boundary families (every frame kind STREAM / STREAM+FIN / RESET_STREAM / STREAM_DATA_BLOCKED / MAX_STREAM_DATA / STOP_SENDING on every stream class -- peer bidi, peer uni, local bidi, local uni -- unopened, opened, at limit-1, limit, limit+1 for limits 0,1,5, both endpoint roles; closing c of L streams by FIN or RESET + read, then timers / transmit / loss / ack / 200 ms steps and frames at the moved limit) + seeded random sequences of 1..40 operations with indices clustered at the (moving) limit +-2 and at the number of locally opened streams +-1. fv: MAX_STREAMS / STREAMS_BLOCKED values around 2^60 and NEW_CONNECTION_ID (sequence, retire_prior_to, length) around retire_prior_to = sequence +-1 and lengths 0,1,20,21,255",
     "assumptions": [
         "the judge takes consumed + configured window (the value the endpoint is committed to advertise) as the advertised limit; between the largest MAX_* actually transmitted and that value a frame may be accepted or refused with FLOW_CONTROL_ERROR",
         "frames for a receive half that is closed (application stop_sending, accepted RESET_STREAM, read to the end) may be ignored instead of rejected",
+        "st: a peer-initiated unidirectional stream counts as closed once the application has read its end (FIN -> finished, RESET_STREAM -> error); bidirectional streams are never closed in this component; between the largest MAX_STREAMS transmitted and closed + limit a stream-creating frame may be accepted or refused with STREAM_LIMIT_ERROR; time moves in 200 ms steps with min_rtt 100 ms",
+        "RFC 9000 section 11: PROTOCOL_VIOLATION and INTERNAL_ERROR are accepted in place of any specific code when a rule is broken; another specific code is not",
         "streams are driven through the real stream::Manager by the hook verif_hooks/recv.rs with one server endpoint and four client-initiated bidirectional streams; packets, decryption and frame decoding are not part of this component",
     ],
     "trusted_base": ["no axioms: Print Assumptions reports 'Closed under the global context' for every C04 theorem",
                      "tools/genfam_C04.py (parser of space/*.rs for the frame permission matrix)",
                      "/repo verif_hooks/recv.rs (driver around stream::Manager), harness/h_transport/src/bin/C04.rs"],
-    "explanation": "frame x packet-space permission matrix parsed from space/*.rs equals RFC 9000 Table 3 (theorem by vm_compute over the finite table); receive-side flow control / final size: Coq model of IncrementalValueSync + ReceiveStream + IncomingConnectionFlowController + Reassembler cursors with theorems C04_rx_rejects_exactly and C04_advertised_credit_bound, tied to the source by differential execution against the real stream manager; independent RFC judgement applied to every implementation output",
+    "explanation": "frame x packet-space permission matrix parsed from space/*.rs equals RFC 9000 Table 3 (theorem by vm_compute over the finite table); receive-side flow control / final size: Coq model of IncrementalValueSync + ReceiveStream + IncomingConnectionFlowController + Reassembler cursors with theorems C04_rx_rejects_exactly and C04_advertised_credit_bound, tied to the source by differential execution against the real stream manager; independent RFC judgement applied to every implementation output; stream limits / stream states: model of RemoteInitiated + TokenBucket + the manager's open/direction checks with theorems C04_streams_rejects_exactly and C04_max_streams_bound; frame value validators: model + proved judge (C04_fv_judge_model)",
 })
